@@ -120,6 +120,30 @@ func ociFacts(lf *leanFile) {
 		miss("internal/resolver/memory.go:Memory.Tag")
 	}
 	lf.def("tagDropsStale", "Bool", drops)
+	// file store saveFile: is the digest -> path entry recorded after the verified copy?
+	after := "false"
+	if fd := funcDecl("content/file/file.go", "Store", "saveFile"); fd != nil {
+		copyPos, storePos := token.NoPos, token.NoPos
+		ast.Inspect(fd.Body, func(n ast.Node) bool {
+			if c, ok := n.(*ast.CallExpr); ok {
+				switch exprString(c.Fun) {
+				case "ioutil.CopyBuffer":
+					copyPos = c.Pos()
+				case "s.digestToPath.Store":
+					storePos = c.Pos()
+				}
+			}
+			return true
+		})
+		if copyPos == token.NoPos || storePos == token.NoPos {
+			miss("content/file/file.go:saveFile CopyBuffer / digestToPath.Store")
+		} else if storePos > copyPos {
+			after = "true"
+		}
+	} else {
+		miss("content/file/file.go:saveFile")
+	}
+	lf.def("fileRecordsPathAfterCopy", "Bool", after)
 	lf.def("ociCalls", "List (String × List String)", "["+strings.Join([]string{
 		callList("content/oci/oci.go", "Store", "Delete"),
 		callList("content/oci/oci.go", "Store", "delete"),
